@@ -83,6 +83,17 @@ func otExpectation(w *World, ot store.Obj) (invalid string, data map[string]stri
 		tns = nsMain
 	}
 	targetKey = store.Key{Kind: "ConfigMap", Namespace: tns, Name: "ot-target"}
+	if strings.Contains(tpl, "blen:") {
+		bv, has := cfg["b"]
+		if !has {
+			return "template cannot be rendered without the optional source", nil, targetKey
+		}
+		av, ok := cfg["a"]
+		if !ok {
+			av = "<no value>"
+		}
+		return "", map[string]string{"a": av, "blen": fmt.Sprint(len(bv))}, targetKey
+	}
 	b := cfg["b"]
 	if b == "" {
 		b = "none" // sprig default: an empty value counts as not given, like a missing one
